@@ -97,6 +97,11 @@ func (y CheckWhen) eval(s *Selection, m meta.Meta, when *meta.When, own bool) (b
 	nested := *s
 	nested.Constraints = NewConstraints(s.Constraints)
 	nested.Constraints.removeConstraint("~when")
+	// the expression is about the data, what the request wants to get back of it
+	// does not change what the expression sees
+	for _, requestFilter := range []string{"content", "with-defaults", "fields", "fc.xfields", "depth", "fc.range", "fc.max-node-count", "where", "filter"} {
+		nested.Constraints.removeConstraint(requestFilter)
+	}
 	nested.Constraints.AddConstraint("~when", 100, 0, CheckWhen{depth: y.depth + 1})
 	s = &nested
 	if own && meta.IsLeaf(m) && xp.Ident == ".." && xp.Expr == nil && xp.Next != nil {
